@@ -559,7 +559,9 @@ def _stage(seed, tier, want_malformed):
                 if p["kind"] != "valid":
                     rec["untouched"] = (band_text == SENTINEL)
                     rec["err_class"] = classify_error(err)
-                    rec["err_names_types"] = all(t.lstrip("*") in err for t in d.get("expect", {}).get("types", []))
+                    exp_ = d.get("expect", {})
+                    rec["err_names_types"] = all(t.lstrip("*") in err for t in exp_.get("types", [])) and \
+                        (not exp_.get("types_any") or any(t.lstrip("*") in err for t in exp_["types_any"]))
                     if rc == 0:
                         rec["problems"].append("malformed declaration accepted (exit 0)")
                         if d["name"] in funcs:
